@@ -16,7 +16,8 @@ import (
 //
 //	env   "-" or NAME=<hex value>,…          environment variables to set
 //	file  "-" (no file) or "F:" + key:i:<decimal> | key:b:true|false | key:s:<hex>, comma separated (a YAML file)
-//	args  "-" or comma separated hex tokens of os.Args[1:]; "@" stands for the path of the file, "." for an empty token
+//	args  "-" or comma separated hex tokens of os.Args[1:]; "@" stands for the path of the file, "<hex>@" for
+//	      the text followed by the path of the file (-config=<path>), "." for an empty token
 //
 // The expectation (hidden from the model) is the documented precedence applied here to the structured
 // choices the case was built from: "ok Field=<val>;…" for the touched fields (all others must keep their
@@ -297,17 +298,53 @@ func genOptionsCase(r *rand.Rand, w *bufio.Writer) {
 		}
 	}
 	r.Shuffle(len(front), func(i, j int) { front[i], front[j] = front[j], front[i] })
+	noOracle := false
+	cfgGiven := false // some word of the command line is the config flag
 	if haveFile && useCfg {
-		cfg := []string{"-config", "@"}
+		// the four spellings package flag accepts for a string flag: -config F, --config F, -config=F, --config=F
+		// ("\x01text" = text immediately followed by the path of the file)
+		cfg := optCfgSpelling(r, "@")
+		cfgGiven = true
+		p := r.Intn(len(front) + 1)
+		front = append(front[:p], append([][]string{cfg}, front[p:]...)...)
+	} else if r.Intn(40) == 0 {
+		// an empty path (-config= / -config ""): no file is read, every other source applies
+		cfgGiven = true
+		cfg := [][]string{{"-config="}, {"--config="}, {"-config", ""}, {"--config", ""}}[r.Intn(4)]
 		p := r.Intn(len(front) + 1)
 		front = append(front[:p], append([][]string{cfg}, front[p:]...)...)
 	}
+	nearMiss := false
+	if haveFile && !useCfg && special == "" && r.Intn(3) == 0 {
+		// near misses at the very end: words that are not the config flag (no dash: ends the flags) must not locate the file
+		back = append(back, []string{"\x01" + []string{"config=", "=", "x-config="}[r.Intn(3)]})
+		nearMiss = true
+	}
 	if r.Intn(60) == 0 && special == "" {
-		back = append(back, []string{"-config"}) // -config as the very last argument
-		if haveFile && useCfg {
-			special = "exit 2" // an earlier -config names the file; flag.Parse then misses the value
-		} else {
+		// the config flag without a value as the very last word
+		back = append(back, []string{[]string{"-config", "--config"}[r.Intn(2)]})
+		switch {
+		case !cfgGiven:
 			special = "panic" // loadCfg (before flag.Parse) indexes past the end of os.Args
+		case !nearMiss:
+			special = "exit 2" // an earlier config flag names the file; flag.Parse then misses the value
+		default:
+			// an earlier config flag names the file and the near-miss word ended the flags before this one: no effect
+		}
+	}
+	if r.Intn(50) == 0 && special == "" && haveFile {
+		// Command lines on which the os.Args scan of loadCfg and package flag see the config flag differently.
+		// The documentation does not say which file is meant: no expectation, model against code only.
+		noOracle = true
+		switch r.Intn(4) {
+		case 0: // given twice: loadCfg takes the first, package flag keeps the last
+			back = append(back, optCfgSpelling(r, "/nonexistent/vflow.conf"))
+		case 1:
+			front = append([][]string{optCfgSpelling(r, "/nonexistent/vflow.conf")}, front...)
+		case 2: // behind the terminator: not a flag for package flag
+			back = append(back, []string{"--"}, optCfgSpelling(r, "@"))
+		default: // as the value of another flag (the path itself then ends flag parsing as the first non-flag word)
+			back = append(back, []string{"-log-file"}, []string{[]string{"-config", "--config"}[r.Intn(2)], "@"})
 		}
 	}
 	var toks []string
@@ -315,6 +352,8 @@ func genOptionsCase(r *rand.Rand, w *bufio.Writer) {
 		for _, t := range g {
 			if t == "@" {
 				toks = append(toks, "@")
+			} else if strings.HasPrefix(t, "\x01") {
+				toks = append(toks, hexTok(t[1:])+"@")
 			} else if t == "" {
 				toks = append(toks, ".")
 			} else {
@@ -353,5 +392,21 @@ func genOptionsCase(r *rand.Rand, w *bufio.Writer) {
 		}
 		exp = "ok " + strings.Join(parts, ";")
 	}
+	if noOracle {
+		fmt.Fprintf(w, "options %s %s %s\n", envS, fileS, argS)
+		return
+	}
 	fmt.Fprintf(w, "options %s %s %s\t%s\n", envS, fileS, argS, exp)
+}
+
+// one of the four spellings of the config flag for the given path ("@" = the path of the case's file)
+func optCfgSpelling(r *rand.Rand, path string) []string {
+	dash := []string{"-", "--"}[r.Intn(2)]
+	if r.Intn(2) == 0 {
+		return []string{dash + "config", path}
+	}
+	if path == "@" {
+		return []string{"\x01" + dash + "config="}
+	}
+	return []string{dash + "config=" + path}
 }
